@@ -76,6 +76,7 @@ var ctxKeywords = []string{
 	"safe", "unsafe", "first", "last", "legacy", "span", "fill", "flip", "dense", "crop", "cross",
 	"portrait", "landscape", "on", "off", "to", "at", "auto-flow", "subgrid", "red", "normal", "none", "auto", "center",
 	"left", "right", "top", "bottom", "baseline",
+	"open-quote", "close-quote", "no-open-quote", "no-close-quote", "contents", "large", "smaller",
 }
 
 var kwRe = regexp.MustCompile(`^[a-z][a-z0-9]*(-[a-z0-9]+)*$`)
